@@ -289,7 +289,12 @@ static const char *logical_topic(const char *t, char *buf, size_t n) {
     if (!strncmp(t, "LIBMODULE_", 10)) { snprintf(buf, n, "%s", t + 10); return buf; }
     return t;
 }
-static int pay_id(const void *p) { if (!p) return 0; for (int i = 1; i <= NP; i++) if (PAY[i].ptr == p && PAY[i].live) return i; return 99; }
+static int pay_id(const void *p) {
+    if (!p) return 0;
+    for (int i = 1; i <= NP; i++) if (PAY[i].ptr == p && PAY[i].live && !vp_watch_freed[PAY[i].watch]) return i;   /* (addresses of released payloads get reused) */
+    for (int i = 1; i <= NP; i++) if (PAY[i].ptr == p && PAY[i].live) return i;
+    return 99;
+}
 
 static int evdesc_cb(void *up, void *data) {
     m_evt_t *evt = data;
